@@ -166,6 +166,7 @@ Definition op_ids (s : st) (o : op) : ledger :=
     | None => []
     end
   | OBufNewRead addr _ _ _ _ bufnum => optrange KBuf addr 1 ++ optrange KBuf bufnum 1
+  | OBufNewSendList addr _ _ => optrange KBuf addr 1 ++ optrange KBuf None 1
   | OBufNewCue addr _ _ _ _ bufnum c => optrange KBuf addr 1 ++ optrange KBuf bufnum 1 ++ new_compl_ids c bufnum addr
   | OBufAlloc b c => compl_ids c (bufnum_of s b)
   | OBufAllocRead b _ _ _ _ c => compl_ids c (bufnum_of s b)
@@ -645,6 +646,9 @@ Definition wf_op (n : nat) (s : st) (o : op) : bool :=
   | OBufGen _ cmd args _ _ _ => plain cmd && chunks_ok (List.length args) [TNumStr] args
   | OBufNormalize _ newmax _ => w_numstr newmax
   | OBufCopyData _ dst _ _ _ => live_buf s dst
+  | OBufSendList b vals _ => live_buf s b && forallb w_num vals
+  | OBufNewSendList _ vals _ => forallb w_num vals
+  | OBufGetToList b _ _ => live_buf s b
   | OBusNew _ _ chans _ => 1 <=? chans
   | OBusFree _ | OBusClear _ | OBusGet _ | OBusGetn _ _ => true
   | OBusSub _ off ch => (0 <=? off) && (1 <=? ch)
